@@ -61,7 +61,7 @@ NoFb == [on |-> FALSE, seeds |-> <<>>, sets |-> <<>>]
 (***************************************************************************)
 Res(d, r) == [d |-> d, ret |-> r, out |-> <<>>, xl |-> <<>>, unsound |-> FALSE, adopt |-> FALSE]
 FrameRes(r) == [d |-> r[1], ret |-> r[2].ret, out |-> <<>>, xl |-> r[2].xl,
-                unsound |-> (r[2].op = "aseeds" /\ r[2].unsound), adopt |-> FALSE]
+                unsound |-> (r[2].op \in {"aseeds", "block"} /\ r[2].unsound), adopt |-> FALSE]
 Driver(d, f, e) == FrameRes(RunFrame(S, CfgOf(e), d, f, e.orc))
 CallRes(r) == [d |-> r[1], ret |-> IF r[3] THEN "error" ELSE "ok", out |-> r[2], xl |-> <<>>,
                unsound |-> FALSE, adopt |-> FALSE]
@@ -95,6 +95,7 @@ Expected(d, e, got) ==
       [] e.op = "tgt"     -> Driver(d, TgtBegin(e.target, e.size), e)
       [] e.op = "min"     -> Driver(d, MinBegin(e.n, e.size, e.skip, e.mts), e)
       [] e.op = "aseeds"  -> Driver(d, ASeedsBegin(e.size, e.mts), e)
+      [] e.op = "block" /\ e.fail_at = 0 /\ ~e.raised -> Driver(d, BlockBegin(e.maa, e.size, e.optsrc, e.exact), e)
       [] e.op = "skipmin" -> LET r == SkipToMinimal(S, d, e.n, e.mts, e.fail_at = 1) IN Res(r[1], r[2])
       [] e.op = "skiprem" -> IF e.fail_at = 1 THEN Res(d, "error")
                              ELSE LET r == SkipRemaining(S, d, e.mts) IN Res(r[1], ToString(r[2]))
@@ -276,9 +277,13 @@ Unlimited == (ev.op = "bfs" => ev.lvl = Unl) /\ (ev.op = "dfs" => ev.stk = Unl)
 Inv_FullExact == Report("FullExact",
     (plain /\ Completed({"bfs", "dfs"}) /\ FromRoot /\ Unlimited) => FullExact(S, D))
 \* C03
+\* (block / source-SCC / build: from a fresh diagram only, as the statement says; an already expanded root makes
+\* expand_block return True at once)
+FreshPre == Len(pre.nodes) = 1 /\ ~pre.nodes[1].expanded
 Inv_MinExact == Report("MinExact",
-    ((Completed({"bfs", "dfs", "min", "aseeds", "block", "scc"}) /\ FromRoot /\ Unlimited)
-       \/ (Started /\ ev.op = "skiprem" /\ ~ev.raised) \/ (Started /\ ev.op = "build" /\ ~ev.raised))
+    ((Completed({"bfs", "dfs", "min", "aseeds"}) /\ FromRoot /\ Unlimited)
+       \/ (Completed({"block", "scc"}) /\ FreshPre)
+       \/ (Started /\ ev.op = "skiprem" /\ ~ev.raised) \/ (Started /\ ev.op = "build" /\ ~ev.raised /\ FreshPre))
     => MinExact(S, D))
 \* C15
 Inv_RetFalse == Report("RetFalse",
